@@ -105,14 +105,14 @@ def new_no_panic(rep, mir, L):
     s = z3.Solver()
     pan = [(mm, v) for (mm, k, v) in outs if k == 'panic']
     if pan:
-        mm, v = pan[0]; s.add(*mm.pc); s.check(); md = s.model()
+        mm, v = pan[0]; s.add(*mm.pc); s.add(*A.lemmas); s.check(); md = s.model()
         rep.violated('C06.e GlobalStrategy::new does not panic for any num_tune >= 0 (default fractions)', 'new.panic', 'GlobalStrategy::new panics (%s) e.g. for num_tune = %s' % (v[1] if len(v) > 1 else v, md[nt]),
                      model={'num_tune': str(md[nt])}, native=native.run('num_tune', {'num_tune': int(str(md[nt]))}))
     else: rep.holds('C06.e GlobalStrategy::new does not panic for any num_tune in [0, 2^32) with the default fractions')
     for (mm, k, v) in outs:
         if k != 'ret': continue
         g = lambda f: L.get('GlobalStrategy', v, f)
-        s2 = z3.Solver(); s2.add(*mm.pc); s2.add(z3.Or(g('early_end') > nt, g('final_step_size_window') > nt, g('num_tune') != nt, _b(g('tuning')) != True, g('last_update') != 0))
+        s2 = z3.Solver(); s2.add(*mm.pc); s2.add(*A.lemmas); s2.add(z3.Or(g('early_end') > nt, g('final_step_size_window') > nt, g('num_tune') != nt, _b(g('tuning')) != True, g('last_update') != 0))
         if s2.check() != z3.unsat: rep.violated('C06 invariant initiation', 'new.invariant', 'GlobalStrategy::new does not establish the schedule invariant: %s' % s2.model())
         else: rep.holds('C06 invariant I established by GlobalStrategy::new (early_end <= num_tune, final window <= num_tune, tuning, last_update = 0)')
 
@@ -136,14 +136,19 @@ def window_boundaries(rep, mir, L):
             continue
         nok += 1; g = lambda f: L.get('GlobalStrategy', v, f)
         wlen = z3.ToInt(sw.v * z3.ToReal(nt)); elen = z3.ToInt(ew.v * z3.ToReal(nt))
-        s.add(z3.Or(g('final_step_size_window') != z3.If(nt >= wlen, nt - wlen, 0), g('early_end') != elen, g('current_window_size') != z3.Int('switch_freq'), g('last_update') != 0))
+        # the property fixes the windows as fractions of warm-up, not how the fraction is rounded: any whole number of draws between floor and ceil of
+        # fraction x num_tune is accepted (the code truncates)
+        wx = sw.v * z3.ToReal(nt); ex = ew.v * z3.ToReal(nt); fwin = g('final_step_size_window'); een = g('early_end')
+        wlen_hi = z3.If(z3.ToReal(wlen) == wx, wlen, wlen + 1); elen_hi = z3.If(z3.ToReal(elen) == ex, elen, elen + 1)
+        lo_f = z3.If(nt >= wlen_hi, nt - wlen_hi, 0); hi_f = z3.If(nt >= wlen, nt - wlen, 0)
+        s.add(z3.Or(fwin < lo_f, fwin > hi_f, een < elen, een > elen_hi, g('current_window_size') != z3.Int('switch_freq'), g('last_update') != 0))
         r = s.check()
         if r == z3.sat: bad = ('window boundaries differ from the configuration', s.model())
         elif r != z3.unsat: rep.unknown('C06.f window boundaries', 'solver: ' + s.reason_unknown()); return
     if bad:
         md = {d.name(): str(bad[1][d]) for d in bad[1].decls() if d.arity() == 0}
         rep.violated('C06.f GlobalStrategy::new places the windows as configured', 'new.windows', '%s, e.g. %s' % (bad[0], md), model=md)
-    else: rep.holds('C06.f GlobalStrategy::new: final step-size window = last trunc(step_size_window * num_tune) draws of warm-up (saturating), early window = first trunc(early_window * num_tune) draws, for all num_tune < 2^32 and all fractions (overlap included)', time.time() - t0)
+    else: rep.holds('C06.f GlobalStrategy::new: final step-size window = the last step_size_window fraction of warm-up (length between floor and ceil of fraction x num_tune, saturating), early window = the first early_window fraction likewise, for all num_tune < 2^32 and all fractions (overlap included)', time.time() - t0)
     rep.cover('C06.f a non-panicking path of new exists', nok > 0)
 
 def window_boundaries_flow(rep, mir, L):
@@ -160,14 +165,15 @@ def window_boundaries_flow(rep, mir, L):
             if s.check() != z3.unsat: bad = ('ExternalTransformAdaptation::new panics: %s' % (v,), s.model())
             continue
         nok += 1; g = lambda f: L.get('ExternalTransformAdaptation', v, f)
-        s.add(z3.Or(g('final_window_size') != z3.ToInt(z3.ToReal(nt) * (1 - sw.v)), g('final_window_size') > nt, g('num_tune') != nt, _b(g('tuning')) != True))
+        fx = z3.ToReal(nt) * (1 - sw.v); flo = z3.ToInt(fx); fhi = z3.If(z3.ToReal(flo) == fx, flo, flo + 1)      # rounding of the fraction is not part of the property
+        s.add(z3.Or(g('final_window_size') < flo, g('final_window_size') > fhi, g('final_window_size') > nt, g('num_tune') != nt, _b(g('tuning')) != True))
         r = s.check()
         if r == z3.sat: bad = ('final window of the flow adaptation is not the last step_size_window fraction of warm-up', s.model())
         elif r != z3.unsat: rep.unknown('C06.f flow window boundary', 'solver: ' + s.reason_unknown()); return
     if bad:
         md = {d.name(): str(bad[1][d]) for d in bad[1].decls() if d.arity() == 0}
         rep.violated('C06.f ExternalTransformAdaptation::new places the final window as configured', 'new.windows.flow', '%s, e.g. %s' % (bad[0], md), model=md)
-    else: rep.holds('C06.f ExternalTransformAdaptation::new: final window starts at floor(num_tune x (1 - step_size_window)) <= num_tune, tuning = true, for all num_tune < 2^32 and fractions in [0, 1]', time.time() - t0)
+    else: rep.holds('C06.f ExternalTransformAdaptation::new: final window starts at num_tune x (1 - step_size_window) rounded down or up, never after num_tune, tuning = true, for all num_tune < 2^32 and fractions in [0, 1]', time.time() - t0)
     rep.cover('C06.f a non-panicking path of the flow strategy\'s new exists', nok > 0)
 
 def progress_order(rep, mir, L):
